@@ -5,7 +5,12 @@ interleaved `add_clause` / `imply` / `quadraticencoding` / `heuleencoding(k)` / 
 strings, both constructions, zero / negative / repeated coefficients on both sides) / `solve` / `value` / `evalexpr` —
 are run on the real classes and on the Lean model (`FV/Model/Sat.lean`, `Bdd.lean`, `PB.lean`); op results, every
 manager's clause list / variable table / codified set / model and the store (`memory`, `mmap`) are compared, exactly
-first and, if node numbering differs, after renaming nodes by structure.  `Ineq.isclause` is compared on its own stream.
+first and, if node numbering differs, after renaming nodes by structure.  Histories build some expressions ONCE and
+reuse the same Python `Expr` objects in several posted inequalities (operators and direct `Ineq(a, b, op)`, against
+0 / 0.0 / an empty `Expr` / each other) and in `evalexpr`; the direct semantics always uses the ORIGINAL definitions,
+and the objects must keep their contents (`operand_mutated`).  Histories frequently post a constraint again or post
+a cofactor of an earlier inequality (its largest-coefficient variable fixed to 0 / 1), in the same and in other
+managers, so that the root of a later diagram is an inner node of an earlier one.  `Ineq.isclause` is compared on its own stream.
 
 Spec on implementation: for each manager, every assignment of its (≤ 12) user variables is pushed as unit assumptions to
 the real pysat solver on the real clauses and compared with direct evaluation (Python integers) of the constraints that
@@ -176,15 +181,71 @@ class Impl:
         self.bad = [False] * nm          # an unregistered literal was posted: solve() must raise KeyError
         self.results = []
         self.problems = []               # (clause, detail)
+        self.exprs = {}                  # k -> (Expr object, terms, const, snapshot): built once, reused
+        self.reposts = 0                 # postings whose diagram root had already been encoded (as root or inner node)
+
+    @staticmethod
+    def snap(e):
+        return (e.c, tuple((key, e.t[key].c, e.t[key].L.v, e.t[key].L.s) for key in e.t))
+
+    def side(self, ref):
+        """(python operand, terms, const) of one side of a `pbx` comparison"""
+        if ref[0] == "e":
+            obj, terms, const, _ = self.exprs[ref[1]]
+            return obj, terms, const
+        val = int(ref[2]) if ref[1] == "i" else float(ref[2])
+        return val, [], int(val)
+
+    def check_exprs(self, op) -> None:
+        for key, (obj, _, _, sn) in self.exprs.items():
+            now = self.snap(obj)
+            if now != sn:
+                self.problems.append(("operand_mutated", {"after_op": [str(x) for x in op][:6], "expression": key,
+                                                          "before": repr(sn), "after": repr(now)}))
+                self.exprs[key] = (obj, self.exprs[key][1], self.exprs[key][2], now)   # report once
 
     def step(self, op):
-        """executes op; returns the op to put on the wire (sv gets the solver's answer filled in)"""
+        """executes op; returns the op to put on the wire (sv gets the solver's answer filled in; `pbx` / `evx` are
+        expanded to the definitions of the expressions they reuse; `ex` puts nothing on the wire)"""
         k, i = op[0], op[1]
+        if k == "ex":
+            e = mk_expr(op[3], op[4])
+            self.exprs[op[2]] = (e, op[3], op[4], self.snap(e))
+            return None
         m = self.mgrs[i]
         ncl = len(m.clauses)
+        cod_before = set(m.codified) if k in ("pb", "pbx") else ()
         res, con = "ok", None
+        if k == "pbx":
+            lo, lt, lc = self.side(op[4])
+            ro, rt, rc = self.side(op[5])
+            o = op[3]
+            if not op[6] and op[4][0] == "n":      # `number ⋈ expr`: Python calls the reflected operator of the expression
+                o = {">=": "<=", "<=": ">=", ">": "<", "<": ">"}.get(o, o)
+                lt, lc, rt, rc = rt, rc, lt, lc
+            wire = ("pb", i, op[2], o, lt, lc, rt, rc)
+        elif k == "evx":
+            wire = ("ev", i, self.exprs[op[2]][1], self.exprs[op[2]][2])
+        else:
+            wire = None
         try:
-            if k == "nv":
+            if k == "pbx":
+                if op[6]:
+                    q = pb.Ineq(lo, ro, op[3])
+                else:
+                    c = op[3]
+                    q = lo >= ro if c == ">=" else lo <= ro if c == "<=" else lo > ro if c == ">" else lo < ro if c == "<" else lo == ro
+                m.pseudoboolencoding(q, bool(op[2]))
+                con = ("pb", "=" if wire[3] == "==" else wire[3], wire[4], wire[5], wire[6], wire[7])
+            elif k == "evx":
+                x = m.evalexpr(self.exprs[op[2]][0])
+                res = "e:" + str(x)
+                if x is not None:
+                    sig = {v: m.model[v] for v in m.model}
+                    want = ev_terms(wire[2], wire[3], sig) if all(v in sig for (_, v, _) in wire[2]) else x
+                    if want != x:
+                        self.problems.append(("evalexpr_value", {"mgr": i, "got": x, "direct": want, "reused_expression": op[2]}))
+            elif k == "nv":
                 m.newvar(op[2][4:])   # names are 'def_<x>'
                 if op[2] not in self.users[i]:
                     self.users[i].append(op[2])
@@ -227,7 +288,7 @@ class Impl:
             res = "err:" + type(e).__name__
             # refusals the property allows: heule with k < 3, an operator the ROBDD encoder does not implement
             # (anything but >= / <=) or an invalid operator string, solve() on a manager holding an unregistered literal
-            expected = (type(e) is Exception and ((k == "he" and op[2] < 3) or (k == "pb" and op[3] not in (">=", "<=")))) \
+            expected = (type(e) is Exception and ((k == "he" and op[2] < 3) or (k in ("pb", "pbx") and op[3] not in (">=", "<=")))) \
                 or (type(e) is KeyError and k == "sv" and self.bad[i])
             if not expected:
                 self.problems.append(("operation-raised", {"op": [str(x) for x in op][:4], "raised": repr(e)[:200]}))
@@ -237,7 +298,13 @@ class Impl:
                 self.problems.append(("refused_leaves_no_clauses", {"op": list(op), "added": len(m.clauses) - ncl}))
         if con is not None:
             self.posted[i].append(con)
+            if k in ("pb", "pbx") and len(m.clauses) > ncl and len(m.clauses[-1]) == 1 and m.clauses[-1][0].v.startswith("robdd_"):
+                if int(m.clauses[-1][0].v[6:]) in cod_before:
+                    self.reposts += 1
         self.results.append(res)
+        if k in ("pbx", "evx"):
+            self.check_exprs(op)
+            return wire
         return op
 
     def sat_exists(self, i) -> bool:
@@ -446,6 +513,79 @@ def gen_pb(rng, i, names):
     return ("pb", i, rng.random() < 0.5, o, lt, lc, rt, rc)
 
 
+def net_form(op, lt, lc, rt, rc):
+    """`Σ a_v·x_v + K ≥ 0` form of a `>=` / `<=` constraint: (variables in order of first appearance, a, K)"""
+    sgn = 1 if op == ">=" else -1
+    a, order = {}, []
+    K = sgn * (lc - rc)
+    for side, ts in ((sgn, lt), (-sgn, rt)):
+        for (c, v, s) in ts:
+            if v not in a:
+                a[v] = 0
+                order.append(v)
+            if s:
+                a[v] += side * c
+            else:              # c·¬x = c − c·x
+                a[v] -= side * c
+                K += side * c
+    return order, a, K
+
+
+def gen_related(rng, i, earlier):
+    """the same constraint again, or the cofactor of an earlier inequality on its largest-coefficient variable"""
+    src = rng.choice(earlier)
+    dec = src[2] if rng.random() < 0.8 else not src[2]
+    if rng.random() < 0.25:
+        return ("pb", i, dec) + tuple(src[3:])
+    order, a, K = net_form(src[3], src[4], src[5], src[6], src[7])
+    live = [v for v in order if a[v] != 0]
+    if len(live) < 2:
+        return ("pb", i, dec) + tuple(src[3:])
+    top = max(abs(a[v]) for v in live)
+    lead = [v for v in live if abs(a[v]) == top][0]
+    b = rng.choice([0, 1])
+    lt = [(a[v], v, 1) for v in live if v != lead]
+    if rng.random() < 0.3 and len(lt) > 1:    # one level deeper
+        rest = [t for t in lt]
+        top2 = max(abs(t[0]) for t in rest)
+        l2 = [t for t in rest if abs(t[0]) == top2][0]
+        b2 = rng.choice([0, 1])
+        K += l2[0] * b2
+        lt = [t for t in rest if t is not l2]
+    return ("pb", i, dec, ">=", lt, K + a[lead] * b, [], 0)
+
+
+def gen_rich(rng, i, names):
+    """a weighted at-least constraint over 4–6 variables with the bound in the middle of its range (a genuine diagram)"""
+    vs = rng.sample(names, min(len(names), rng.randint(4, 6)))
+    lt = [(rng.choice([1, 1, 1, 2, 2, 3]), v, rng.choice([1, 1, 1, 0])) for v in vs]
+    tot = sum(c for (c, _, _) in lt)
+    return ("pb", i, rng.random() < 0.3, ">=", lt, 0, [], max(2, tot // 2 + rng.choice([-1, 0, 0, 1])))
+
+
+def gen_pbx(rng, i, pool):
+    """an inequality over expression OBJECTS built once (pool: indices of the expressions of this manager)"""
+    k = rng.choice(pool)
+    r = rng.random()
+    o = ">=" if r < 0.5 else "<=" if r < 0.8 else rng.choice([">", "<", "=", "=="])
+    r = rng.random()
+    if r < 0.45:
+        other = ["n", "i", 0]
+    elif r < 0.55:
+        other = ["n", "f", rng.choice([0.0, -0.0, 0.5])]
+    elif r < 0.75:
+        other = ["n", "i", rng.choice([1, 1, 2, -1, 3])]
+    else:
+        other = ["e", rng.choice(pool)]
+    direct = other[0] == "e" and rng.random() < 0.6
+    if o == "==" and not direct:
+        o = "="
+    left, right = (["e", k], other) if direct or rng.random() < 0.75 else (other, ["e", k])
+    if left[0] == "n" and right[0] == "n":
+        left = ["e", k]
+    return ("pbx", i, rng.random() < 0.5, o, left, right, direct)
+
+
 def gen_history(rng, big: bool):
     nm = rng.choice([1, 1, 2, 2, 3])
     nus = [rng.choice([2, 3, 3, 4, 4, 5, 6, 7, 8]) if not (big and j == 0) else rng.choice([10, 11, 12]) for j in range(nm)]
@@ -453,6 +593,23 @@ def gen_history(rng, big: bool):
     names = [[f"def_x{k}" if shared else f"def_m{j}x{k}" for k in range(nus[j])] for j in range(nm)]
     ops = [("nv", j, v) for j in range(nm) for v in names[j]]
     bad = [False] * nm
+    pools = [[] for _ in range(nm)]          # expressions built once and reused (indices per manager)
+    nex = 0
+    if rng.random() < 0.6:
+        for j in range(nm):
+            for _ in range(rng.randint(1, 3)):
+                empty = rng.random() < 0.15
+                ts = [] if empty else rand_terms(rng, names[j][:nus[j]], rng.randint(1, 5), -3, 5)
+                ops.append(("ex", 0, nex, ts, 0 if empty else rng.choice([-3, -2, -1, -1, 1, 1, 2, 0])))
+                pools[j].append(nex)
+                nex += 1
+    earlier = []                               # `>=` / `<=` inequalities posted so far (any manager)
+    family = rng.random() < 0.35               # histories built around diagrams and their sub-diagrams
+    if family:
+        for j in range(nm):
+            if len(names[j]) >= 4 and rng.random() < 0.8:
+                ops.append(gen_rich(rng, j, names[j]))
+                earlier.append(ops[-1])
     nops = rng.randint(1, 8) * nm
     for _ in range(nops):
         i = rng.randrange(nm)
@@ -482,12 +639,28 @@ def gen_history(rng, big: bool):
                 ls.append(rand_lit(rng, ns))
             ops.append(("he", i, rng.choice([3, 3, 3, 4, 5, 6, 2, 0, -1]), ls))
         elif r < 0.90:
+            r2 = rng.random()
+            if pools[i] and r2 < 0.35:
+                ops.append(gen_pbx(rng, i, pools[i]))
+                continue
+            if earlier and r2 < (0.85 if family else 0.65):
+                same = [e for e in earlier if e[1] == i]
+                src = same if same and rng.random() < 0.7 else [e for e in earlier if set(t[1] for t in e[4] + e[6]) <= set(ns)]
+                if src:
+                    ops.append(gen_related(rng, i, src))
+                    if ops[-1][3] in (">=", "<="):
+                        earlier.append(ops[-1])
+                    continue
             ops.append(gen_pb(rng, i, ns))
+            if ops[-1][3] in (">=", "<="):
+                earlier.append(ops[-1])
         else:
             ops.append(("sv", i, None))
             for _ in range(rng.randint(0, 3)):
                 if rng.random() < 0.5:
                     ops.append(("val", i, rand_lit(rng, ns + [f"def_never{i}"])))
+                elif pools[i] and rng.random() < 0.5:
+                    ops.append(("evx", i, rng.choice(pools[i])))
                 else:
                     ops.append(("ev", i, rand_terms(rng, ns, rng.randint(0, 4), 1, 5), rng.randint(-2, 3)))
     for j in range(nm):
@@ -519,6 +692,8 @@ def norm_op(o):
         o[2] = (o[2][0], int(o[2][1]))
     elif k == "ev":
         o[2] = terms(o[2])
+    elif k == "ex":
+        o[3] = terms(o[3])
     return tuple(o)
 
 
@@ -528,7 +703,9 @@ def run_history(ctx: Ctx, h, reqs, todo, stream="hist") -> None:
     im.bad = list(h.get("bad", [False] * nm))
     wire = []
     for o in h["ops"]:
-        wire.append(w_op(im.step(norm_op(o))))
+        wo = im.step(norm_op(o))
+        if wo is not None:
+            wire.append(w_op(wo))
     sz = len(h["ops"])
     inp = {"history": h}
     for i in range(nm):
@@ -542,10 +719,11 @@ def run_history(ctx: Ctx, h, reqs, todo, stream="hist") -> None:
     reqs.append(f"P hist {nm} {len(wire)} " + " ".join(wire))
     todo.append(("hist", inp, impl, sz))
     kinds = [o[0] for o in h["ops"]]
-    ctx.case(stream, reqs[-1], nontrivial=any(k in ("pb", "he", "qu") for k in kinds),
+    ctx.case(stream, reqs[-1], nontrivial=any(k in ("pb", "pbx", "he", "qu") for k in kinds),
              sample={"request": reqs[-1][:300], "results": " ".join(im.results)})
     for k in kinds:
         ctx.count("op:" + k)
+    ctx.count("codified-root-reposts:%d" % min(3, im.reposts))
     for r in im.results:
         if r.startswith("err"):
             ctx.count("result:" + r)
